@@ -22,6 +22,7 @@ namespace {
 
 struct Cover {
     uint64_t trees = 0, nodes = 0, dirs = 0, files = 0, emptyDirs = 0, queries = 0, missingProbes = 0, relativeQueries = 0, trailingSepQueries = 0;
+    uint64_t deepChains = 0, longestCwd = 0;
     uint64_t strings = 0, identities = 0, absoluteJoins = 0, arbitraryStrings = 0, visitors = 0, nestedVisitors = 0, bytesInFiles = 0, oddNames = 0, nontrivialCases = 0;
     std::vector<uint64_t> fps;
     std::vector<std::string> samples;
@@ -189,6 +190,62 @@ void visitorChecks(const Node &root, const std::string &rootPath, rt::Rng &rng) 
     if (cwd() != before) fail("visitor-not-restored", "visitor", "working directory is " + esc(cwd()) + " after the visitor was destroyed, before it was " + esc(before));
 }
 
+// A chain of nested directories with long names: the working directory grows well beyond 255 bytes
+// while visitors are stacked on the way down, and every one of them must restore its predecessor.
+void descend(const std::vector<std::string> &names, size_t level, const std::string &here, rt::Rng &rng) {
+    if (gCaseFailed || level == names.size()) return;
+    std::string next = here + "/" + names[level];
+    {
+        bool relative = rng.chance(700);
+        DirectoryVisitor v{Path(relative ? names[level] : next)};
+        ++C.nestedVisitors;
+        C.longestCwd = std::max<uint64_t>(C.longestCwd, next.size());
+        if (cwd() != next) return fail("visitor-did-not-enter", "deep-visitor", "level " + std::to_string(level) + ": working directory has " + std::to_string(cwd().size()) + " bytes, expected the " + std::to_string(next.size()) + "-byte directory");
+        Path wd = Path::getWorkingDirectory();
+        if (wd.toString() != next) return fail("getWorkingDirectory-wrong", "deep-visitor", "getWorkingDirectory() returned " + std::to_string(wd.toString().size()) + " bytes for a working directory of " + std::to_string(next.size()) + " bytes");
+        if (!Path(".").isDirectory() || !Path(next).exists()) return fail("exists-wrong", "deep-visitor", "long path not seen as a directory");
+        descend(names, level + 1, next, rng);
+    }
+    if (!gCaseFailed && cwd() != here)
+        fail("visitor-not-restored", "deep-visitor", "after the visitor of level " + std::to_string(level) + " (cwd was " + std::to_string(next.size()) + " bytes) the working directory is '" + esc(cwd()) + "', expected the " + std::to_string(here.size()) + "-byte parent");
+}
+
+void deepCase(uint64_t c, rt::Rng rng, const std::string &base) {
+    std::vector<std::string> names;
+    int depth = (int) rng.range(3, 7);
+    std::string rootPath = base + "/d" + std::to_string(c);
+    std::string p = rootPath;
+    for (int i = 0; i < depth; ++i) {
+        std::string n = "level-" + std::to_string(i) + "-" + std::string((size_t) rng.range(20, 200), (char) ('a' + rng.below(26)));
+        names.push_back(n);
+        p += "/" + n;
+    }
+    fs::create_directories(p);
+    size_t fileSize = (size_t) rng.below(5000);
+    { std::ofstream o(p + "/leaf.bin", std::ios::binary); o << std::string(fileSize, 'z'); }
+    gDesc = "deep chain case " + std::to_string(c) + ": " + std::to_string(depth) + " nested directories, deepest path " + std::to_string(p.size()) + " bytes";
+    rt::crumb("%s", gDesc.c_str());
+    std::string before = cwd();
+    fs::current_path(rootPath);
+    descend(names, 0, rootPath, rng);
+    if (!gCaseFailed && cwd() != rootPath) fail("visitor-not-restored", "deep-visitor", "working directory not back at the chain root");
+    // size / listing through the long absolute path
+    if (!gCaseFailed) {
+        Path deep(p);
+        if (!deep.exists() || !deep.isDirectory() || deep.size() != fileSize) fail("size-wrong", "long-path", "size()/exists() wrong through a " + std::to_string(p.size()) + "-byte path");
+        else if (Path(rootPath).size() != fileSize) fail("size-wrong", "long-path", "size() of the chain root does not reach the leaf file");
+    }
+    fs::current_path(before);
+    ++C.deepChains;
+    ++C.trees;
+    ++C.nontrivialCases;
+    rt::Hash h;
+    for (auto &n : names) h.add(std::hash<std::string>{}(n));
+    C.fps.push_back(h.get());
+    std::error_code ec;
+    fs::remove_all(rootPath, ec);
+}
+
 void treeCase(uint64_t c, rt::Rng rng, const std::string &base) {
     Node root;
     root.dir = true;
@@ -284,7 +341,8 @@ int main(int argc, char **argv) {
         rt::setCase(c);
         gCaseFailed = false;
         rt::Rng rng(rt::mix(rt::st().seed, c));
-        if (c % 2 == 0) treeCase(c, rng, base);
+        if (c % 10 == 4) deepCase(c, rng, base);
+        else if (c % 2 == 0) treeCase(c, rng, base);
         else stringCase(c, rng);
     }
     std::error_code ec;
@@ -294,7 +352,7 @@ int main(int argc, char **argv) {
                    .kv("emptyDirectories", C.emptyDirs).kv("nodeQueries", C.queries).kv("relativeQueries", C.relativeQueries)
                    .kv("trailingSeparatorQueries", C.trailingSepQueries).kv("missingPathProbes", C.missingProbes).kv("oddNames", C.oddNames)
                    .kv("bytesInFiles", C.bytesInFiles).kv("pathStrings", C.strings).kv("identitiesChecked", C.identities).kv("absoluteJoins", C.absoluteJoins)
-                   .kv("arbitraryStrings", C.arbitraryStrings).kv("visitors", C.visitors).kv("nestedVisitors", C.nestedVisitors)
+                   .kv("arbitraryStrings", C.arbitraryStrings).kv("visitors", C.visitors).kv("nestedVisitors", C.nestedVisitors).kv("deepChains", C.deepChains).kv("maxCwdBytes", C.longestCwd)
                    .kv("nontrivialCases", C.nontrivialCases).raw("samples", rt::jsonArray(C.samples, false)));
     return 0;
 }
